@@ -133,6 +133,20 @@ def Topics.set (s : Topics) (topic : String) (t : Topic) : Topics :=
 
 def Topics.ensure (s : Topics) (topic : String) : Topic := (s.get topic).getD {}
 
+/-- `t.removeHandler(h)` on the (existing or freshly ensured) topic: swap-removal; the removed handler is
+closed, i.e. its queue is drained — what it received is final and logged under `closed`. -/
+def Topics.removeHandler (s : Topics) (topic hid : String) : Topics :=
+  let t := s.ensure topic
+  let (hs, removed) := removeSwap hid t.handlers
+  let s' := s.set topic { t with handlers := hs }
+  match removed with
+  | some h => { s' with closed := s'.closed ++ [(h.hid, h.got)] }
+  | none => s'
+
+/-- `t.addHandler(h)` on the (existing or freshly ensured) topic. -/
+def Topics.addHandler (s : Topics) (topic hid : String) : Topics :=
+  s.set topic ((s.ensure topic).addHandler hid)
+
 inductive Op where
   | collect (topic id : String) (level : Nat) (time : Int)
   | update (topic id : String) (level : Nat) (time : Int)     -- Topics.UpdateEvent
@@ -148,24 +162,13 @@ def stepWith (lt : ES → ES → Bool) (s : Topics) : Op → Topics
     s.set topic ((s.ensure topic).collectWith lt topic { id := id, level := level, time := time })
   | .update topic id level time =>
     s.set topic ((s.ensure topic).updateEventWith lt { id := id, level := level, time := time }).1
-  | .reg topic hid => s.set topic ((s.ensure topic).addHandler hid)
-  | .dereg topic hid =>
+  | .reg topic hid => s.addHandler topic hid                      -- RegisterHandler (creates the topic)
+  | .dereg topic hid =>                                           -- DeregisterHandler (only on an existing topic)
     match s.get topic with
     | none => s
-    | some t =>
-      let (hs, removed) := removeSwap hid t.handlers
-      let s' := s.set topic { t with handlers := hs }
-      match removed with
-      | some h => { s' with closed := s'.closed ++ [(h.hid, h.got)] }
-      | none => s'
-  | .replace topic old new =>
-    let t := s.ensure topic
-    let (hs, removed) := removeSwap old t.handlers
-    let t' := ({ t with handlers := hs } : Topic).addHandler new
-    let s' := s.set topic t'
-    match removed with
-    | some h => { s' with closed := s'.closed ++ [(h.hid, h.got)] }
-    | none => s'
+    | some _ => s.removeHandler topic hid
+  | .replace topic old new =>                                      -- ReplaceHandler: ensure, remove old, add new
+    (s.removeHandler topic old).addHandler topic new
   | .deltopic topic =>
     match s.get topic with
     | none => s
@@ -179,13 +182,23 @@ def stepWith (lt : ES → ES → Bool) (s : Topics) : Op → Topics
 def step (s : Topics) (op : Op) : Topics := stepWith less s op
 def run (ops : List Op) : Topics := ops.foldl step {}
 
+/-- What the live registration of handler `hid` on `topic` has received (`addHandler` never registers a
+handler twice on one topic, so the first match is the only one). -/
+def Topics.live (s : Topics) (topic hid : String) : List Ev :=
+  match s.get topic with
+  | none => []
+  | some t =>
+    match t.handlers.find? (fun h => h.hid == hid) with
+    | some hd => hd.got
+    | none => []
+
+/-- What closed registrations of `hid` had received for `topic`. -/
+def Topics.fromClosed (s : Topics) (topic hid : String) : List Ev :=
+  (s.closed.filter (fun p => p.1 == hid)).flatMap (fun p => p.2.filter (fun e => e.topic == topic))
+
 /-- Everything handler `hid` has received for topic `topic` (closed registrations first, then the live one). -/
 def Topics.delivered (s : Topics) (topic hid : String) : List Ev :=
-  let fromClosed := (s.closed.filter (fun p => p.1 == hid)).flatMap (fun p => p.2.filter (fun e => e.topic == topic))
-  let live := match s.get topic with
-    | none => []
-    | some t => (t.handlers.filter (fun h => h.hid == hid)).flatMap (·.got)
-  fromClosed ++ live
+  s.fromClosed topic hid ++ s.live topic hid
 
 def Topics.maxLevel (s : Topics) (topic : String) : Nat := (s.ensure topic).maxLevel
 def Topics.eventStates (s : Topics) (topic : String) (min : Nat) : List ES := (s.ensure topic).eventStates min
